@@ -111,7 +111,11 @@ def gen_upd(r, ctx, maxsteps):
         parents.append(([r.range(-3, 3) for _ in range(d)], f))
     pool = [p for p in parents]
     toks = [ref, mu, m, d, T, steps]
-    if ref: toks += [w + 3 + r.below(3) for _ in range(m)]      # every (penalised) fitness vector dominates the reference point (finding C14-HV3D-REF-NOT-DOMINATED)
+    if ref:
+        # members beyond the reference point: in 2-D always, in 3-D only on a tree that passes the probe (finding F-C14-2)
+        beyond = (m == 2 or REPAIRED["hv3d"]) and r.below(3) == 0
+        toks += [(r.range(max(1, w - 3), w + 1) if beyond else w + 3 + r.below(3)) for _ in range(m)]
+        ctx.hist("upd_reference_inside_cloud", beyond)
     for x, f in parents: toks += x + f
     c = 1 if algo in ("smsemoa", "ssmocma", "moead") else mu
     for _ in range(steps):
@@ -153,8 +157,23 @@ def observe_aux(ctx, exe, lines):
     return res
 
 
+REPAIRED = {"hv3d": False}     # set by the corpus probe in run(): does the tree survive a front member beyond the reference point?
+PROBE_HV3D = "sel hvr 1 3 2 4 4 4 4 3 2 5 0 3"
+
+
+def probe_hv3d(ctx, exe):
+    """finding F-C14-2: on an unrepaired tree HypervolumeContribution3D reads out of bounds when a front member is not strictly
+    below the reference point; the generator enters that region only where the probe input runs cleanly"""
+    import subprocess
+    try:
+        p = subprocess.run([exe], input=PROBE_HV3D + "\n", capture_output=True, text=True, timeout=60)
+        return p.returncode == 0 and p.stdout.startswith("ranks=")
+    except Exception:
+        return False
+
+
 def gen_sel(r, ctx):
-    ind = r.choice(["hv", "hv", "hvnoref", "crowd", "eps", "nsga3"])
+    ind = r.choice(["hv", "hv", "hvnoref", "crowd", "eps", "nsga3", "hvr", "hvr"])
     # (the harness starts from a fresh container, stale alternating marks or all-true marks depending on (n + mu) % 3)
     m = r.choice([2, 2, 3])
     n = r.range(1, 14)
@@ -165,6 +184,15 @@ def gen_sel(r, ctx):
     ctx.hist("sel_flags_before", ["fresh", "stale-alternating", "all-true"][(n + mu) % 3] + ("/mu=n" if mu == n else ""))
     ctx.hist("sel_single_front", len(C13.nondominated(P)) == n)
     ctx.hist("sel_duplicates", len({tuple(p) for p in P}) < n)
+    if ind == "hvr":
+        # explicit reference point; members beyond it in 2-D always, in 3-D only on a tree that passes the probe
+        beyond = (m == 2 or REPAIRED["hv3d"]) and r.below(3) != 0
+        ref = []
+        for d in range(m):
+            lo_d = min(p[d] for p in P); hi_d = max(p[d] for p in P)
+            ref.append(r.range(lo_d, hi_d + 1) if beyond else hi_d + 1 + r.below(3))
+        ctx.hist("sel_hvr_member_beyond_reference", any(any(p[d] >= ref[d] for d in range(m)) for p in P))
+        return f"sel hvr {mu} {m} {n} {' '.join(map(str, ref))} {C13.flat(P)}"
     return f"sel {ind} {mu} {m} {n} {C13.flat(P)}"
 
 
@@ -215,17 +243,19 @@ def shrink(line, fails, budget=40):
         return " ".join(t)
     if t[0] == "sel":
         ind, mu, m, n = t[1], int(t[2]), int(t[3]), int(t[4]); nums = t[5:]
+        ref = []
+        if ind == "hvr": ref, nums = nums[:m], nums[m:]
         P = [nums[i * m:(i + 1) * m] for i in range(n)]
+        mk = lambda mu_, Q: f"sel {ind} {mu_} {m} {len(Q)} " + " ".join(ref + [x for p in Q for x in p])
         changed = True
         while changed and budget > 0:
             changed = False
             for i in range(len(P) - 1, -1, -1):
                 if len(P) <= 1: break
                 Q = P[:i] + P[i + 1:]; mu2 = min(mu, len(Q)); budget -= 1
-                cand = f"sel {ind} {mu2} {m} {len(Q)} " + " ".join(x for p in Q for x in p)
-                if fails(cand): P, mu, changed = Q, mu2, True
+                if fails(mk(mu2, Q)): P, mu, changed = Q, mu2, True
                 if budget <= 0: break
-        return f"sel {ind} {mu} {m} {len(P)} " + " ".join(x for p in P for x in p)
+        return mk(mu, P)
     return line
 
 
@@ -246,7 +276,7 @@ def run(ctx):
                     "ASan/UBSan runtime for the real code's memory safety (not a theorem)"]
     ctx.assumptions += ["1 <= mu <= population size (mu = 0 makes the C++ loop run forever; mu > n underflows popSize - mu)",
                         "tournament-based optimizers need mu >= 3 (TournamentSelection requires n > tournament size), lattice-based ones mu >= number of objectives",
-                        "every generated fitness vector strictly dominates the reference point of the hypervolume indicator (finding F-C14-2: 3-D contributions with a reference point read out of bounds otherwise)",
+                        "3 objectives: every generated fitness vector is strictly below the reference point of the hypervolume indicator UNLESS the tree passes the corpus probe of finding F-C14-2 (on /repo HEAD the 3-D contribution routine reads out of bounds otherwise); 2 objectives: members beyond the reference point are generated always",
                         "optimizer clauses are checked on the generated runs only (fixed seeds), benchmark functions are deterministic"]
     ctx.prove(["SharkVerif.Props.C14"])
     if not ctx.quick:
@@ -256,6 +286,9 @@ def run(ctx):
     if not sel_exe or not opt_exe or not gen_exe or not drv:
         return
     r = ctx.rng.fork("c14")
+    REPAIRED["hv3d"] = probe_hv3d(ctx, sel_exe)
+    ctx.cov["probe_hv3d_reference_not_dominated_survives"] = REPAIRED["hv3d"]
+    ctx.log(f"probe F-C14-2 (3-D contributions with a member beyond the reference point): {'repaired tree, region generated' if REPAIRED['hv3d'] else 'unrepaired, region not generated (corpus input reports the known finding)'}")
     nsel, nelit, nopt, maxsteps = (400, 60, 90, 120) if ctx.quick else (3000, 300, 500, 300)
     sel_lines = load_corpus(("sel", "elit")) + [gen_sel(r, ctx) for _ in range(nsel)] + [gen_elit(r, ctx) for _ in range(nelit)]
     opt_lines = load_corpus(("opt",)) + [gen_opt(r, ctx, maxsteps) for _ in range(nopt)]
